@@ -24,6 +24,8 @@ func main() {
 	switch os.Args[1] {
 	case "verify":
 		cmdVerify(os.Args[2:])
+	case "sweep":
+		cmdSweep(os.Args[2:])
 	case "baseline":
 		cmdBaseline(os.Args[2:])
 	case "check":
